@@ -287,8 +287,15 @@ Definition needed_round (g : graph) (r0 outs acc : list id) : list id :=
 Fixpoint iter {A} (n : nat) (f : A -> A) (x : A) : A :=
   match n with O => x | S k => iter k f (f x) end.
 
+(* iterate an extending round function, stopping early once a round adds nothing *)
+Fixpoint iter_fix (n : nat) (f : list id -> list id) (x : list id) : list id :=
+  match n with
+  | O => x
+  | S k => let y := f x in if (length y =? length x)%nat then x else iter_fix k f y
+  end.
+
 Definition needed_set (g : graph) (r0 outs : list id) : list id :=
-  iter (S (num_ops g)) (needed_round g r0 outs) [].
+  iter_fix (S (num_ops g)) (needed_round g r0 outs) [].
 
 Definition minimalb (g : graph) (r0 outs plan : list id) : bool :=
   let ns := needed_set g r0 outs in forallb (fun o => mem o ns) plan.
@@ -313,7 +320,7 @@ Definition comp_round (g : graph) (am : bool) (r0 fired : list id) : list id :=
   fired ++ filter (fun o => negb (mem o fired) && can_fire g am r0 fired o) (nodup N.eq_dec (op_ids g)).
 
 Definition computable_set (g : graph) (am : bool) (r0 : list id) : list id :=
-  res_of g r0 (iter (S (num_ops g)) (comp_round g am r0) []).
+  res_of g r0 (iter_fix (S (num_ops g)) (comp_round g am r0) []).
 
 Definition request_plannableb (g : graph) (ins outs : list id) (am ca : bool) : bool :=
   nodupb outs && forallb (is_value_or_const g) outs &&
